@@ -78,6 +78,20 @@ def model():
     return _M
 
 
+_MM = None
+
+
+def merge_model():
+    """numbapkmerge (the accumulation behind pk2dmerge) through the same extraction: on the current tree it has no prange loop and
+    the model has a single schedule; if the loop is ever made parallel every interleaving of its load/store steps is explored"""
+    global _MM
+    if _MM is None:
+        from vt import prange
+        import ImageD11.sinograms.properties as P
+        _MM = prange.Model([P.numbapkmerge.py_func], extra_ns={"numba": __import__("numba")})
+    return _MM
+
+
 def make_driver(i, j, n, comp_of, comp_min, trace=None, maxsweeps=40):
     def driver(M):
         ns = M.ns
@@ -282,6 +296,34 @@ def _run_merge(desc):
                         if k_ not in got or not np.allclose(got[k_], v, rtol=1e-12, atol=1e-12):
                             sh.violation("pk2dmerge:%s" % k_, case, {"got": got.get(k_), "expected": v})
                             break
+                    # the accumulation kernel itself: njit result == sequential model (conformance), and every schedule of the model
+                    # (one, unless the loop is parallel) ends in that table
+                    if npk <= 3:
+                        from vt import prange
+                        MM = merge_model()
+                        real = np.zeros((7, nl))
+                        P.numbapkmerge(lab, props, omega, dty, real, sf)
+
+                        def drv(M, _lab=lab, _props=props, _sf=sf, _nl=nl):
+                            out = np.zeros((7, _nl))
+                            M.observe = lambda: tuple(out.ravel().tolist())
+                            M.phase = None
+                            M.ns["numbapkmerge"](_lab, _props, omega, dty, out, _sf)
+                            return tuple(out.ravel().tolist())
+                        seq = np.array(MM.run(drv, (), sequential=True)).reshape(7, nl)
+                        if not np.array_equal(seq, real):
+                            sh.violation("model-conformance:numbapkmerge-sequential-model-differs-from-njit", case, {"model": seq, "njit": real})
+                        else:
+                            sh.traces_validated += 1
+                            r = prange.explore(MM, drv, max_states=200000)
+                            sh.states += max(1, r["states"])
+                            sh.transitions += r["transitions"]
+                            if r["capped"]:
+                                sh.capped = True
+                            bad = [t_ for t_ in r["terminals"] if not np.allclose(np.array(t_).reshape(7, nl), real, rtol=1e-12, atol=1e-12)]
+                            if bad:
+                                sh.violation("pk2dmerge:schedule-dependent-accumulation", case, {"terminal": np.array(bad[0]).reshape(7, nl), "expected": real,
+                                                                                               "n_terminals": len(r["terminals"])})
                     # 2-D table
                     g2 = t.pk2d(omega, dty, scale_factor=sf)
                     w2 = {"s_raw": props[2] / props[1], "f_raw": props[3] / props[1], "omega": omega.flat[props[4]], "dty": dty.flat[props[4]],
@@ -327,7 +369,7 @@ def run_shard(desc):
 
 def finalize(merged, tier, seed):
     M = model()
-    return {"extracted_model_info": M.info, "extracted_model_source_sha": __import__("hashlib").sha256("".join(M.sources.values()).encode()).hexdigest()[:16]}
+    return {"extracted_model_info": dict(M.info, **merge_model().info), "extracted_model_source_sha": __import__("hashlib").sha256("".join(M.sources.values()).encode()).hexdigest()[:16]}
 
 
 def replay(case):
